@@ -484,7 +484,7 @@ CallS(m, a) ==
 
 ----------------------------------------------------------------------------
 (* Dispatcher: the outcome of action record a in core state s              *)
-IsRx(a) == a.act \in {"RxConnect", "RxDisconnect", "RxEvent", "RxAck", "RxAckDup", "RxFrame", "RxRaw", "EioLost"}
+IsRx(a) == a.act \in {"RxConnect", "RxDisconnect", "RxEvent", "RxAck", "RxAckDup", "RxFrame", "RxRaw", "RxFuzz", "EioLost"}
 
 Step(m, a) ==
     CASE a.act = "EioOpen"      -> EioOpen(m, a.t)
@@ -511,6 +511,9 @@ Step(m, a) ==
       [] a.act = "RxRaw"        -> IF a.class = "contained" THEN Raise(m, "X")
                                    ELSE IF a.class = "ackbare" THEN AckBare(m, a.t)
                                    ELSE m
+      \* an arbitrary frame (random tier of C12): what it does to its sender is not modelled -
+      \* the edge is judged by FuzzOK below, never by Do
+      [] a.act = "RxFuzz"       -> m
       [] a.act = "Emit"         -> Emit(m, a)
       [] a.act = "Call"         -> CallS(m, a)
       [] a.act = "EnterRoom"    -> EnterRoom(m, a.sid, a.room, a.ns)
@@ -542,7 +545,7 @@ Enabled(s, a) ==
     /\ s.nextSid > a.need
     /\ a.live => Has(AllMembers(s, a.ns), a.sid)     \* only for a client that is there
     /\ CASE a.act = "EioOpen" -> s.eio[a.t] = "none" /\ \A u \in Transports : a.after = u => s.eio[u] # "none"
-         [] a.act \in {"EioLost"} -> s.eio[a.t] = "open"
+         [] a.act \in {"EioLost", "RxFuzz"} -> s.eio[a.t] = "open"
          [] a.act = "RxConnect" -> s.eio[a.t] = "open" /\ s.nextSid <= MaxSid /\ ~Has(s.binbuf, a.t)
          [] a.act \in {"RxDisconnect", "RxEvent", "RxAck", "RxAckDup", "RxRaw"} -> s.eio[a.t] = "open" /\ ~Has(s.binbuf, a.t)
          [] a.act = "RxFrame" -> /\ s.eio[a.t] = "open"
@@ -904,6 +907,21 @@ Prune(v) ==
     [v EXCEPT !.rooms = [ns \in {n \in DOMAIN @ : \E r \in DOMAIN @[n] : DOMAIN @[n][r] # {}} |->
                             [r \in {r \in DOMAIN @[ns] : DOMAIN @[ns][r] # {}} |-> @[ns][r]]],
               !.pending = [ns \in {n \in DOMAIN @ : @[n] # <<>>} |-> @[ns]]]
+
+(* The same claim for a frame whose reading is NOT modelled (random and     *)
+(* grammar-mutated frames): s, n = the states before and after, o = what   *)
+(* was observed.  Whatever the frame did to its sender, nothing was sent   *)
+(* to anybody else, no handler ran for another client, only the sender's   *)
+(* own callbacks completed, and the bystanders' view is unchanged.         *)
+FuzzOK(s, off, o, n) ==
+    LET \* its sessions before or after, and those the frame itself created (a CONNECT that
+        \* was refused leaves none behind)
+        mine == OwnedBy(s, off) \cup OwnedBy(n, off) \cup {SidName(k) : k \in s.nextSid..(n.nextSid - 1)}
+    IN  /\ DOMAIN o.pk \subseteq {off}
+        /\ \A i \in 1..Len(o.hc) : o.hc[i].sid \in mine
+        /\ Prune(BystanderView(n, off)) = Prune(BystanderView(s, off))
+        /\ (o.cbs # <<>> => \E x \in mine : Has(s.cb, x))
+        /\ n.nextSid >= s.nextSid
 
 C12_Isolation ==
     \A a \in Acts(st) : (IsRx(a) /\ a.act # "EioLost") =>
